@@ -17,7 +17,7 @@ ListOps ==
     \cup [op : {"remove", "read", "set", "opset", "opsub"}, x : LVars, i : IdxKinds]
     \cup [op : {"join", "eq", "joinalias"}, x : {"a", "b"}, y : LVars] \cup [op : {"join", "eq"}, x : {"c"}, y : LVars]
     \cup [op : {"alias", "clone"}, y : {"a", "b"}]          \* c = y   /   c = y.clone()
-    \cup [op : {"litfrom"}, x : {"a"}]                       \* c = [a[0], a[1]]  (elements copied, not aliased)
+    \cup [op : {"litfrom", "mapfrom", "eqboxed"}, x : {"a"}]  \* c = [a[0], a[1]] / c = [0].map(fn(i) { return a[i] }): elements copied, not aliased
 
 MVars == {"m", "e", "n"}
 Keys == {"k1", "k2", "k3"}
@@ -87,6 +87,17 @@ ListStmts(o, n) ==
       [] o.op = "eq" -> <<Print(Bin("==", V(o.x), V(o.y)))>>
       [] o.op = "alias" -> <<Let("c", V(o.y))>>
       [] o.op = "clone" -> <<Let("c", MCall(V(o.y), "clone", <<>>))>>
+      \* the mapped list holds the values read from a, not views of a's slots
+      [] o.op = "mapfrom" -> <<LetT("pos", "[int...]", List(<<I(0)>>)),
+                               Let("c", MCall(V("pos"), "map", <<Fn("pick", <<P("q", "int")>>, ElemTy, <<Ret(Idx(V("a"), V("q")))>>)>>))>>
+      \* a list holding a boxed optional (the result of a built-in) equals the list holding the plain value
+      [] o.op = "eqboxed" -> IF ty = "opt"
+                             THEN <<LetT("hs", "[int...]", List(<<I(7), I(2)>>)),
+                                    LetT("bxl", LTy, List(<<MCall(V("hs"), "index_of", <<I(2)>>), MCall(V("hs"), "index_of", <<I(99)>>)>>)),
+                                    LetT("pll", LTy, List(<<I(1), Nil>>)),
+                                    Print(Bin("==", V("bxl"), V("pll"))), Print(Bin("!=", V("bxl"), V("pll"))),
+                                    Print(MCall(V("pll"), "index_of", <<MCall(V("hs"), "index_of", <<I(2)>>)>>))>>
+                             ELSE <<Print(Bin("==", V("a"), V("a")))>>
       [] o.op = "litfrom" -> <<Let("z0", I(0)), Let("z1", I(1)),
                                LetT("c", LTy, List(<<Idx(V("a"), V("z0")), Idx(V("a"), V("z1"))>>))>>
 
